@@ -576,6 +576,7 @@ func (r *collection) addService(service any, lifetime Lifetime, opts ...AddOptio
 		}
 
 		// Register each field as a separate service that points to the same constructor
+		fieldDescriptors := make([]*Descriptor, 0, len(descriptor.resultFields))
 		for _, field := range descriptor.resultFields {
 			// Create a descriptor for each field type
 			fieldDescriptor := &Descriptor{
@@ -595,18 +596,11 @@ func (r *collection) addService(service any, lifetime Lifetime, opts ...AddOptio
 				paramFields:     descriptor.paramFields,
 			}
 
-			// Register the field descriptor
-			if err := r.registerDescriptor(fieldDescriptor); err != nil {
-				return &RegistrationError{
-					ServiceType: field.Type,
-					Operation:   "register result object field",
-					Cause:       err,
-				}
-			}
+			fieldDescriptors = append(fieldDescriptors, fieldDescriptor)
 		}
 
-		// Don't register the result object type itself
-		return nil
+		// Register the field descriptors; don't register the result object type itself
+		return r.registerAll(fieldDescriptors, "register result object field")
 	}
 
 	// Handle multiple return types (not Out structs)
@@ -621,6 +615,7 @@ func (r *collection) addService(service any, lifetime Lifetime, opts ...AddOptio
 
 		// If we have multiple non-error returns, register each as a separate service
 		if len(nonErrorReturns) > 1 {
+			typeDescriptors := make([]*Descriptor, 0, len(nonErrorReturns))
 			for i, ret := range nonErrorReturns {
 				// Create a descriptor for each return type
 				typeDescriptor := &Descriptor{
@@ -646,22 +641,17 @@ func (r *collection) addService(service any, lifetime Lifetime, opts ...AddOptio
 					typeDescriptor.Key = nil
 				}
 
-				// Register each type descriptor
-				if err := r.registerDescriptor(typeDescriptor); err != nil {
-					return &RegistrationError{
-						ServiceType: ret.Type,
-						Operation:   "register multi-return type",
-						Cause:       err,
-					}
-				}
+				typeDescriptors = append(typeDescriptors, typeDescriptor)
 			}
-			return nil
+
+			return r.registerAll(typeDescriptors, "register multi-return type")
 		}
 	}
 
 	// Handle As option - register under interface types
 	if len(options.As) > 0 {
 		// When As is specified, register the service under each interface type
+		interfaceDescriptors := make([]*Descriptor, 0, len(options.As))
 		for _, iface := range options.As {
 			interfaceType := reflect.TypeOf(iface).Elem()
 
@@ -694,22 +684,62 @@ func (r *collection) addService(service any, lifetime Lifetime, opts ...AddOptio
 				paramFields:      descriptor.paramFields,
 			}
 
-			// Register the interface descriptor
-			if err := r.registerDescriptor(interfaceDescriptor); err != nil {
-				return &RegistrationError{
-					ServiceType: interfaceType,
-					Operation:   "register as interface",
-					Cause:       err,
-				}
-			}
+			interfaceDescriptors = append(interfaceDescriptors, interfaceDescriptor)
 		}
 
 		// If As is specified, we only register under interface types, not the concrete type
-		return nil
+		return r.registerAll(interfaceDescriptors, "register as interface")
 	}
 
 	// Register the descriptor normally
 	return r.registerDescriptor(descriptor)
+}
+
+// registerAll registers the descriptors one registration call produces (result
+// object fields, multiple returns, interface aliases) atomically: if one of
+// them collides with an existing registration, or with an earlier descriptor
+// of the same call, none of them is registered.
+func (r *collection) registerAll(descriptors []*Descriptor, operation string) error {
+	batch := make(map[TypeKey]struct{}, len(descriptors))
+	for _, descriptor := range descriptors {
+		if descriptor.Key == nil && descriptor.Group != "" {
+			continue // group members never collide
+		}
+
+		key := TypeKey{Type: descriptor.Type, Key: descriptor.Key}
+		_, registered := r.services[key]
+		_, inBatch := batch[key]
+		if registered || inBatch {
+			var cause error = &AlreadyRegisteredError{ServiceType: descriptor.Type}
+			if descriptor.Key != nil {
+				cause = &RegistrationError{
+					ServiceType: descriptor.Type,
+					Operation:   "register",
+					Cause:       cause,
+				}
+			}
+
+			return &RegistrationError{
+				ServiceType: descriptor.Type,
+				Operation:   operation,
+				Cause:       cause,
+			}
+		}
+
+		batch[key] = struct{}{}
+	}
+
+	for _, descriptor := range descriptors {
+		if err := r.registerDescriptor(descriptor); err != nil {
+			return &RegistrationError{
+				ServiceType: descriptor.Type,
+				Operation:   operation,
+				Cause:       err,
+			}
+		}
+	}
+
+	return nil
 }
 
 // registerDescriptor registers a descriptor in the appropriate collections based on its type.
